@@ -99,10 +99,24 @@ def main():
             subprocess.run(["git", "-C", "/repo", "worktree", "remove", "--force", os.path.join(tmp, "repo")],
                            stdout=subprocess.DEVNULL, stderr=subprocess.DEVNULL)
             shutil.rmtree(tmp, ignore_errors=True)
-    json.dump(results, open(rp, "w"), indent=1, sort_keys=True)
+    # several instances may run in parallel (on different properties): merge under a lock instead of overwriting
+    import fcntl
+    with open(rp + ".lock", "w") as lk:
+        fcntl.flock(lk, fcntl.LOCK_EX)
+        cur = json.load(open(rp)) if os.path.exists(rp) else {}
+        for sid in ids:
+            if sid in results:
+                if isinstance(results[sid], dict) and isinstance(cur.get(sid), dict) and "error" not in results[sid]:
+                    cur[sid] = {k: v for k, v in cur[sid].items() if k != "error"}
+                    cur[sid].update(results[sid])
+                else:
+                    cur[sid] = results[sid]
+        json.dump(cur, open(rp, "w"), indent=1, sort_keys=True)
     # the evidence files were rewritten by runs against a mutated copy: restore them from git so that committed evidence
     # always comes from /repo itself
-    subprocess.run(["git", "-C", V, "checkout", "--", "evidence"], stdout=subprocess.DEVNULL, stderr=subprocess.DEVNULL)
+    touched = sorted({k.split(":")[0] for sid in ids for k in (results.get(sid) or {}) if ":" in k})
+    subprocess.run(["git", "-C", V, "checkout", "--"] + ["evidence/%s.json" % p for p in touched],
+                   stdout=subprocess.DEVNULL, stderr=subprocess.DEVNULL)
 
 
 if __name__ == "__main__":
